@@ -493,6 +493,9 @@ func (sp *Specs) parseFile(repo, file string) error {
 // "(*AIMDLimit).OnSample" -> "limit.(*AIMDLimit).OnSample"; "core.Limit.OnSample" stays.
 func qualify(pkg, name string) string {
 	name = strings.TrimSpace(name)
+	if strings.Contains(name, ":") {
+		return name
+	}
 	if strings.HasPrefix(name, "(*") {
 		inner := name[2:]
 		if strings.Contains(strings.SplitN(inner, ")", 2)[0], ".") {
